@@ -672,6 +672,42 @@ fn type_names_type(t: &ast::TypeId, out: &mut Vec<ast::ScopedIdentifier>) {
     for a in t.base.layout.1.iter() {
         type_names_eot(a, out);
     }
+    type_names_abstract_declarator(&t.abstract_declarator, out);
+}
+
+/// the array sizes of an abstract declarator are expressions (`(float[(S)x])y`)
+fn type_names_abstract_declarator(d: &ast::Declarator, out: &mut Vec<ast::ScopedIdentifier>) {
+    match d {
+        ast::Declarator::Empty | ast::Declarator::Identifier(..) => {}
+        ast::Declarator::Pointer(p) => type_names_abstract_declarator(&p.inner, out),
+        ast::Declarator::Reference(r) => type_names_abstract_declarator(&r.inner, out),
+        ast::Declarator::Array(a) => {
+            type_names_abstract_declarator(&a.inner, out);
+            if let Some(e) = &a.array_size {
+                type_names_expr(&e.node, out);
+            }
+        }
+    }
+}
+
+fn resolve_abstract_declarator(d: &ast::Declarator, types: &[ast::ScopedIdentifier]) -> ast::Declarator {
+    match d {
+        ast::Declarator::Empty | ast::Declarator::Identifier(..) => d.clone(),
+        ast::Declarator::Pointer(p) => ast::Declarator::Pointer(ast::PointerDeclarator {
+            attributes: p.attributes.clone(),
+            qualifiers: p.qualifiers.clone(),
+            inner: Box::new(resolve_abstract_declarator(&p.inner, types)),
+        }),
+        ast::Declarator::Reference(r) => ast::Declarator::Reference(ast::ReferenceDeclarator {
+            attributes: r.attributes.clone(),
+            inner: Box::new(resolve_abstract_declarator(&r.inner, types)),
+        }),
+        ast::Declarator::Array(a) => ast::Declarator::Array(ast::ArrayDeclarator {
+            inner: Box::new(resolve_abstract_declarator(&a.inner, types)),
+            array_size: a.array_size.as_ref().map(|e| Box::new(loc(resolve(&e.node, types)))),
+            attributes: a.attributes.clone(),
+        }),
+    }
 }
 
 fn type_names_eot(e: &ast::ExpressionOrType, out: &mut Vec<ast::ScopedIdentifier>) {
@@ -733,6 +769,7 @@ fn resolve_type(t: &ast::TypeId, types: &[ast::ScopedIdentifier]) -> ast::TypeId
     let mut t = t.clone();
     let args: Vec<_> = t.base.layout.1.iter().map(|a| resolve_eot(a, types)).collect();
     t.base.layout.1 = args.into_boxed_slice();
+    t.abstract_declarator = resolve_abstract_declarator(&t.abstract_declarator, types);
     t
 }
 
@@ -1625,6 +1662,8 @@ fn shrink_source(text: &str, kind: &str) -> String {
 struct SrcGen {
     rng: Rng,
     kinds: Hist,
+    /// write expression template arguments / sizeof operands of every form (`Foo<(n > 4 ? 1 : 2)> v;`, `g<(a, b)>(x)`)
+    rich_targs: bool,
 }
 
 impl SrcGen {
@@ -1634,6 +1673,17 @@ impl SrcGen {
     fn ty(&mut self) -> String {
         let base = *self.rng.pick(&["float", "uint", "int", "float4", "float3x3", "S", "bool"]);
         let mut t = match self.rng.below(12) {
+            0 if self.rich_targs && self.rng.chance(1, 2) => {
+                self.kinds.add("type-with-expression-argument");
+                // always behind a keyword modifier: a statement that starts `Foo<(y)> v[…]` is also an expression
+                // (`Foo < (y) > v[…]`), which the parser answers as ambiguous — not what this stream is after
+                let m = *self.rng.pick(&["const", "static", "precise", "static const"]);
+                return match self.rng.below(3) {
+                    0 => format!("{} Foo<({})>", m, self.targ_expr()),
+                    1 => format!("{} Foo<({}), float>", m, self.targ_expr()),
+                    _ => format!("{} Foo<vector<float, ({})>, ({})>", m, self.targ_expr(), self.targ_expr()),
+                };
+            }
             0 => format!("vector<{}, {}>", *self.rng.pick(&["float", "uint"]), 2 + self.rng.below(3)),
             1 => format!("matrix<float, {}, {}>", 2 + self.rng.below(3), 2 + self.rng.below(3)),
             2 => "T<S, 4>".to_string(),
@@ -1663,6 +1713,14 @@ impl SrcGen {
                 _ => self.name().to_string(),
             };
         }
+        if self.rich_targs && self.rng.chance(1, 10) {
+            self.kinds.add("expression-argument");
+            return match self.rng.below(3) {
+                0 => format!("g<({})>({})", self.targ_expr(), self.name()),
+                1 => format!("sizeof(({}))", self.targ_expr()),
+                _ => format!("g<float, ({})>()", self.targ_expr()),
+            };
+        }
         match self.rng.below(14) {
             0 => format!("{} + {}", self.expr(d - 1), self.expr(d - 1)),
             1 => format!("{} * ({} - {})", self.expr(d - 1), self.expr(d - 1), self.expr(d - 1)),
@@ -1678,6 +1736,27 @@ impl SrcGen {
             11 => format!("{} >> {}", self.expr(d - 1), self.expr(d - 1)),
             12 => format!("{} == {}", self.expr(d - 1), self.expr(d - 1)),
             _ => format!("({}, {})", self.expr(d - 1), self.expr(d - 1)),
+        }
+    }
+    /// the inside of a parenthesised template argument / sizeof operand: conditionals, relational and shift operators, comma,
+    /// assignment — whatever the formatter has to keep in parentheses there — over ordinary expressions
+    fn targ_expr(&mut self) -> String {
+        let a = self.expr(1);
+        let b = self.expr(1);
+        let c = self.expr(1);
+        match self.rng.below(12) {
+            0 => format!("{} > {} ? {} : {}", a, b, c, self.name()),
+            1 => format!("{} ? {} >> {} : {}", a, b, c, self.name()),
+            2 => format!("{} ? {} : {} >= {}", a, b, c, self.name()),
+            3 => format!("{} = {} ? {} > 1 : {}", self.name(), a, b, c),
+            4 => format!("{}, {}", a, b),
+            5 => format!("{} ? ({}, {}) : {}", a, b, c, self.name()),
+            6 => format!("{} > {}", a, b),
+            7 => format!("{} >>= {}", self.name(), a),
+            8 => format!("{} < {}", a, b),
+            9 => format!("{} >= {} && {} << {}", a, b, c, self.name()),
+            10 => format!("{} ? {} : {}", a, b, c),
+            _ => self.expr(2),
         }
     }
     fn init(&mut self, d: u32) -> String {
@@ -1920,7 +1999,111 @@ impl SrcGen {
     }
 }
 
+/// cost estimate of reading the text the real formatter prints for the tree back: deepest nesting of `(` / `[` plus half
+/// the number of `<` (0 when it does not print).  The
+/// parser tries a cast and a parenthesised expression at every `(` and a template argument list at every `name <`, each
+/// reading the inside again: its running time doubles with every level (a depth-6 random tree with a dozen levels takes
+/// minutes, in the Lean model as well), so the random part of `template-args` keeps the nesting bounded.
+fn printed_nesting(tree: &SExp) -> usize {
+    let e = match de_expr(tree) {
+        Some(e) => e,
+        None => return 0,
+    };
+    let mut module = match lex_parse(Ctx::Ret.template()) {
+        Ok(m) => m,
+        Err(_) => return 0,
+    };
+    if put(&mut module, Ctx::Ret, e).is_none() {
+        return 0;
+    }
+    let text = match guard(|| rssl_formatter::format(&module, rssl_formatter::Target::Hlsl)) {
+        Ok(Ok(t)) => t,
+        _ => return 0,
+    };
+    let (mut d, mut max, mut lts) = (0usize, 0usize, 0usize);
+    for c in text.chars() {
+        match c {
+            '(' | '[' => {
+                d += 1;
+                max = max.max(d);
+            }
+            ')' | ']' => d = d.saturating_sub(1),
+            '<' => lts += 1,
+            _ => {}
+        }
+    }
+    // every `<` (operator or bracket) starts a template argument attempt that reads the rest once more: count two of them
+    // like one more level (seed 7, thorough: one tree with 6 levels and a dozen `<` took 591 s)
+    max + lts / 2
+}
+
+/// per-tree time budget of the random `template-args` trees (milliseconds for one print + parse)
+const TARG_PARSE_BUDGET_MS: u64 = 1500;
+
+/// trial run: print the tree and read the text back on a helper thread; `false` when that does not finish within `ms`
+/// (the helper thread is abandoned — it ends with the process)
+fn reads_within_budget(tree: &SExp, ms: u64) -> bool {
+    let e = match de_expr(tree) {
+        Some(e) => e,
+        None => return true,
+    };
+    let mut module = match lex_parse(Ctx::Ret.template()) {
+        Ok(m) => m,
+        Err(_) => return true,
+    };
+    if put(&mut module, Ctx::Ret, e).is_none() {
+        return true;
+    }
+    let text = match guard(|| rssl_formatter::format(&module, rssl_formatter::Target::Hlsl)) {
+        Ok(Ok(t)) => t,
+        _ => return true,
+    };
+    let (tx, rx) = std::sync::mpsc::channel();
+    let spawned = std::thread::Builder::new().stack_size(512 << 20).spawn(move || {
+        let _ = guard(|| lex_parse(&text).is_ok());
+        let _ = tx.send(());
+    });
+    if spawned.is_err() {
+        return true;
+    }
+    rx.recv_timeout(std::time::Duration::from_millis(ms)).is_ok()
+}
+
+/// the shape of the known misreading `a < b … > (c)`: the tree has a `<` and a `>` operator, none of them inside an
+/// expression-or-type position, and its text has a lone `>` directly in front of `(`
+fn lt_gt_paren_shape(t: &SExp, text: &str) -> bool {
+    fn eot_has_angle(t: &SExp, inside: bool) -> bool {
+        match t {
+            SExp::Atom(a) => inside && (a.contains("Less") || a.contains("Greater") || a.contains("Shift")),
+            SExp::List(l) => {
+                let here = inside || matches!(t.head(), Some("E") | Some("B") | Some("T"));
+                l.iter().any(|x| eot_has_angle(x, here))
+            }
+        }
+    }
+    let s = t.show();
+    if !(s.contains("(bin LessThan") && s.contains("(bin GreaterThan")) || eot_has_angle(t, false) {
+        return false;
+    }
+    let b: Vec<char> = text.chars().collect();
+    for i in 0..b.len() {
+        if b[i] == '>' && (i == 0 || (b[i - 1] != '>' && b[i - 1] != '-')) {
+            let mut j = i + 1;
+            while j < b.len() && b[j] == ' ' {
+                j += 1;
+            }
+            if j < b.len() && b[j] == '(' {
+                return true;
+            }
+        }
+    }
+    false
+}
+
 fn run_request(line: &str, out: &mut Out, hist: &mut Stats) {
+    if std::env::var_os("VERIF_C09_TRACE").is_some() {
+        eprintln!("{}", line);
+    }
     let f: Vec<&str> = line.split('\t').collect();
     match f.as_slice() {
         ["C09.rt", ctx, tree] => {
@@ -1938,7 +2121,23 @@ fn run_request(line: &str, out: &mut Out, hist: &mut Stats) {
                 let (mc, mt) = shrink(c, &t, &kind);
                 let key = format!("{} {} {}", kind, mc.name(), mt.show());
                 hist.classes.add(&key);
-                o.oracle = format!("{} min={}", o.oracle, key);
+                // the known misreading `a < b … > (c)` => `a<b …>(c)` inside a tree that has template arguments elsewhere:
+                // the *minimal* failing tree has no expression-or-type position at all and its text reads back with one
+                let has_eot = |t: &str| t.contains("(E (") || t.contains("(B (") || t.contains("(T (");
+                let mo = run_tree(mc, &mt);
+                let invents = !has_eot(&mt.show())
+                    && mo.obs.split(" ==> ").nth(1).map(|r| has_eot(r)).unwrap_or(false);
+                // … or is rejected (`a < a & a > (Foo<a>)a`: the would-be argument list `(Foo<a>` does not parse): the minimal
+                // tree still needs a `<` operator and a `>` operator printed directly in front of a `(`, and neither stands
+                // in an expression-or-type position (there the formatter answers for them: not this class)
+                let lt_gt_paren = lt_gt_paren_shape(&mt, mo.obs.split(" ==> ").next().unwrap_or(""));
+                o.oracle = format!(
+                    "{}{}{} min={}",
+                    o.oracle,
+                    if invents { " reread-invents-template-args" } else { "" },
+                    if lt_gt_paren { " lt-gt-paren" } else { "" },
+                    key
+                );
             }
             out.case(line, &o.obs, &o.oracle);
         }
@@ -2158,6 +2357,115 @@ fn exhaustive(d: usize, full: bool) -> Vec<SExp> {
         out.push(SExp::list("mem", vec![c.clone(), SExp::atom("m")]));
         out.push(SExp::list("call", vec![c.clone(), SExp::List(vec![]), SExp::List(vec![a.clone()])]));
         out.push(SExp::list("call", vec![a.clone(), SExp::List(vec![]), SExp::List(vec![c.clone(), b.clone()])]));
+    }
+    out
+}
+
+/// the expression-or-type positions (and the other positions with delimiters of their own that sit inside types) an
+/// expression can be printed in: template argument of a call / of a type name (alone, first, after a type), `sizeof`
+/// operand, template argument of a type that is itself a template argument (`>` `>` adjacent), array size of an abstract
+/// declarator
+const TARG_POSITIONS: usize = 9;
+/// bound on the bracket nesting of the printed text of a random `template-args` tree (see `printed_nesting`)
+const MAX_TARG_NESTING: usize = 7;
+fn targ_position(e: &SExp, k: usize) -> SExp {
+    let ea = SExp::list("E", vec![e.clone()]);
+    let foo = |args: Vec<SExp>| {
+        let mut v = vec![parse_sexp("(n Foo)").unwrap()];
+        v.extend(args);
+        SExp::list("tyt", v)
+    };
+    let x = parse_sexp("(id x)").unwrap();
+    let g = parse_sexp("(id g)").unwrap();
+    let four = parse_sexp("(E (lit i 4))").unwrap();
+    let tfloat = parse_sexp("(T (ty float))").unwrap();
+    match k % TARG_POSITIONS {
+        0 => SExp::list("call", vec![g, SExp::List(vec![ea]), SExp::List(vec![x])]),
+        1 => SExp::list("cast", vec![foo(vec![ea]), x]),
+        2 => SExp::list("sizeof", vec![ea]),
+        3 => SExp::list("call", vec![g, SExp::List(vec![tfloat, ea]), SExp::List(vec![])]),
+        4 => SExp::list("cast", vec![foo(vec![ea, four]), x]),
+        5 => SExp::list("call", vec![g, SExp::List(vec![SExp::list("T", vec![foo(vec![ea])])]), SExp::List(vec![x])]),
+        6 => SExp::list("sizeof", vec![SExp::list("T", vec![foo(vec![four, ea])])]),
+        7 => SExp::list("cast", vec![SExp::list("arr", vec![parse_sexp("(ty float)").unwrap(), e.clone()]), x]),
+        _ => SExp::list("call", vec![g, SExp::List(vec![ea, tfloat]), SExp::List(vec![x.clone(), x])]),
+    }
+}
+
+/// one node of every kind around `x` (the other operands are leaves): the alphabet of the systematic part of the
+/// `template-args` stream
+fn targ_wrappers(x: &SExp, all_ops: bool) -> Vec<SExp> {
+    let a = parse_sexp("(id a)").unwrap();
+    let b = parse_sexp("(lit i 3)").unwrap();
+    let mut out = Vec::new();
+    for op in ["Minus", "LogicalNot", "PostfixIncrement", "PrefixDecrement"] {
+        out.push(un(op, x.clone()));
+    }
+    let some_ops = [
+        "Multiply", "Add", "LeftShift", "RightShift", "LessThan", "GreaterThan", "GreaterEqual", "LessEqual", "Equality",
+        "BitwiseAnd", "BooleanOr", "Assignment", "RightShiftAssignment", "Sequence",
+    ];
+    if all_ops {
+        for (op, _) in BINOPS.iter() {
+            out.push(bin(op, x.clone(), a.clone()));
+            out.push(bin(op, a.clone(), x.clone()));
+        }
+    } else {
+        for op in some_ops {
+            out.push(bin(op, x.clone(), a.clone()));
+            out.push(bin(op, a.clone(), x.clone()));
+        }
+    }
+    out.push(SExp::list("tern", vec![x.clone(), a.clone(), b.clone()]));
+    out.push(SExp::list("tern", vec![a.clone(), x.clone(), b.clone()]));
+    out.push(SExp::list("tern", vec![a.clone(), b.clone(), x.clone()]));
+    out.push(SExp::list("sub", vec![x.clone(), a.clone()]));
+    out.push(SExp::list("sub", vec![a.clone(), x.clone()]));
+    out.push(SExp::list("mem", vec![x.clone(), SExp::atom("m")]));
+    out.push(SExp::list("call", vec![x.clone(), SExp::List(vec![]), SExp::List(vec![a.clone()])]));
+    out.push(SExp::list("call", vec![a.clone(), SExp::List(vec![]), SExp::List(vec![x.clone()])]));
+    out.push(SExp::list("call", vec![a.clone(), SExp::List(vec![]), SExp::List(vec![x.clone(), b.clone()])]));
+    out.push(targ_position(x, 0));
+    out.push(targ_position(x, 5));
+    out.push(SExp::list("cast", vec![parse_sexp("(ty S)").unwrap(), x.clone()]));
+    out.push(targ_position(x, 1));
+    out.push(targ_position(x, 2));
+    out
+}
+
+/// systematic trees for the `template-args` stream: every node kind over every node kind (depth 3: all 30 binary
+/// operators at the inner node), and depth 4 where the middle node is a conditional / assignment / comma / cast / minus
+fn targ_catalogue(full: bool) -> Vec<SExp> {
+    let leaf = parse_sexp("(id b)").unwrap();
+    let d2 = targ_wrappers(&leaf, true);
+    let mut out = vec![leaf.clone(), parse_sexp("(lit i 3)").unwrap()];
+    out.extend(d2.iter().cloned());
+    let mut d3 = Vec::new();
+    for x in &d2 {
+        d3.extend(targ_wrappers(x, full));
+    }
+    out.extend(d3.iter().cloned());
+    // depth 4: the operators that print their operands bare at the loosest levels around every depth-3 tree whose top is a
+    // conditional, an assignment or a comma (thorough: around every depth-3 tree)
+    for y in &d3 {
+        let top_loose = match y.head() {
+            Some("tern") => true,
+            Some("bin") => matches!(y.args()[0].as_atom(), Some("Assignment") | Some("Sequence") | Some("RightShiftAssignment")),
+            _ => false,
+        };
+        if !(full || top_loose) {
+            continue;
+        }
+        let a = parse_sexp("(id a)").unwrap();
+        let c = parse_sexp("(id c)").unwrap();
+        out.push(bin("Assignment", a.clone(), y.clone()));
+        out.push(bin("Sequence", y.clone(), a.clone()));
+        out.push(bin("Sequence", a.clone(), y.clone()));
+        out.push(SExp::list("tern", vec![y.clone(), a.clone(), c.clone()]));
+        out.push(SExp::list("tern", vec![a.clone(), y.clone(), c.clone()]));
+        out.push(SExp::list("tern", vec![a.clone(), c.clone(), y.clone()]));
+        out.push(un("Minus", y.clone()));
+        out.push(SExp::list("cast", vec![parse_sexp("(ty S)").unwrap(), y.clone()]));
     }
     out
 }
@@ -2439,6 +2747,73 @@ impl Gen {
         }
     }
 
+    /// stream `template-args`: an expression of any form for an expression-or-type position.  Like `expr(d, false)` with
+    /// the weights moved towards what matters inside `<` … `>`: conditionals, the operators `<` `>` `>=` `>>` `>>=` `<=`
+    /// `<<`, comma, assignments — and with casts (also to types with template arguments), `sizeof` and template calls
+    /// (nested expression-or-type positions) at every depth.  Names used as types (`Foo`, `S`, `vector`, `float`) and as
+    /// values (`a b c n x`) are disjoint, so no argument starts like a type.
+    fn targ_expr(&mut self, d: usize) -> SExp {
+        if d <= 1 || self.rng.chance(1, 8) {
+            return match self.rng.below(10) {
+                0 | 1 | 2 => parse_sexp(&format!("(lit i {})", self.rng.below(9))).unwrap(),
+                3 => parse_sexp("(lit u 4)").unwrap(),
+                4 => parse_sexp("(lit b 1)").unwrap(),
+                5 => parse_sexp("(id N v)").unwrap(),
+                _ => SExp::list("id", vec![SExp::atom(*self.rng.pick(&["a", "b", "c", "n", "x"]))]),
+            };
+        }
+        let r = self.rng.below(100);
+        if r < 10 {
+            let op = UNOPS[self.rng.below(10) as usize].0;
+            un(op, self.targ_expr(d - 1))
+        } else if r < 30 {
+            let op = *self.rng.pick(&[
+                "LessThan", "GreaterThan", "GreaterEqual", "RightShift", "RightShiftAssignment", "Sequence", "LessEqual",
+                "LeftShift", "LeftShiftAssignment", "Assignment",
+            ]);
+            let l = self.targ_expr(d - 1);
+            let r = self.targ_expr(d - 1);
+            bin(op, l, r)
+        } else if r < 45 {
+            let op = BINOPS[self.rng.below(30) as usize].0;
+            let l = self.targ_expr(d - 1);
+            let r = self.targ_expr(d - 1);
+            bin(op, l, r)
+        } else if r < 65 {
+            let c = self.targ_expr(d - 1);
+            let a = self.targ_expr(d - 1);
+            let b = self.targ_expr(d - 1);
+            SExp::list("tern", vec![c, a, b])
+        } else if r < 70 {
+            let o = self.targ_expr(d - 1);
+            let i = self.targ_expr(d - 1);
+            SExp::list("sub", vec![o, i])
+        } else if r < 74 {
+            let o = self.targ_expr(d - 1);
+            SExp::list("mem", vec![o, SExp::atom("m")])
+        } else if r < 80 {
+            let f = if self.rng.chance(1, 2) { parse_sexp("(id f)").unwrap() } else { self.targ_expr(d - 1) };
+            let mut args = Vec::new();
+            for _ in 0..self.rng.below(3) {
+                args.push(self.targ_expr(d - 1));
+            }
+            SExp::list("call", vec![f, SExp::List(vec![]), SExp::List(args)])
+        } else if r < 88 {
+            let x = self.targ_expr(d - 1);
+            let k = self.rng.below(TARG_POSITIONS as u64) as usize;
+            targ_position(&x, k)
+        } else if r < 94 {
+            let t = if self.rng.chance(1, 2) {
+                SExp::list("ty", vec![SExp::atom(*self.rng.pick(&["float", "S", "Foo"]))])
+            } else {
+                SExp::list("tyt", vec![parse_sexp("(n Foo)").unwrap(), SExp::list("E", vec![self.targ_expr(d - 1)])])
+            };
+            SExp::list("cast", vec![t, self.targ_expr(d - 1)])
+        } else {
+            SExp::list("sizeof", vec![SExp::list("E", vec![self.targ_expr(d - 1)])])
+        }
+    }
+
     /// random tree of depth <= d; `exotic` enables exporter-only shapes
     fn expr(&mut self, d: usize, exotic: bool) -> SExp {
         if d <= 1 || self.rng.chance(1, 7) {
@@ -2552,6 +2927,101 @@ pub fn run(args: &Args, out: &mut Out) {
         run_request(&line, out, &mut st);
     }
     out.stat(&st.json("random-types"));
+    // stream 3b': every expression form in every expression-or-type position (closes seeded mutant C09-6): the
+    // systematic catalogue in the three main positions and, rotating, the other six; then random deeper trees
+    let mut st = Stats::default();
+    let cat = targ_catalogue(thorough);
+    for (i, e) in cat.iter().enumerate() {
+        for k in [0usize, 1, 2, 3 + i % 6] {
+            let t = targ_position(e, k);
+            let line = format!("C09.rt\tret\t{}", t.show());
+            run_request(&line, out, &mut st);
+        }
+    }
+    let mut dropped_slow = 0u64;
+    for i in 0..(if thorough { 30000 } else { 3000 }) {
+        let d = 3 + (i % 4) as usize;
+        let mut t;
+        let mut tries = 0;
+        loop {
+            let e = g.targ_expr(d);
+            t = targ_position(&e, g.rng.below(TARG_POSITIONS as u64) as usize);
+            if g.rng.chance(1, 3) {
+                // not at the root: below an assignment, a conditional, a comma, a subscript …
+                let ws = targ_wrappers(&t, false);
+                t = ws[g.rng.below(ws.len() as u64) as usize].clone();
+            }
+            tries += 1;
+            if printed_nesting(&t) <= MAX_TARG_NESTING || tries >= 50 {
+                break;
+            }
+        }
+        if printed_nesting(&t) > MAX_TARG_NESTING {
+            continue;
+        }
+        // hard budget: the printed text must read back within TARG_PARSE_BUDGET_MS in a trial run, or the tree is never
+        // emitted as a request (so neither this harness nor the model ever meets a tree that takes minutes)
+        if !reads_within_budget(&t, TARG_PARSE_BUDGET_MS) {
+            dropped_slow += 1;
+            continue;
+        }
+        if std::env::var_os("VERIF_C09_TRACE").is_some() {
+            eprintln!("nesting {}", printed_nesting(&t));
+        }
+        let ctx = *g.rng.pick(&["ret", "ret", "arg", "idx", "init", "stmt"]);
+        let line = format!("C09.rt\t{}\t{}", ctx, t.show());
+        run_request(&line, out, &mut st);
+    }
+    out.stat(&st.json("template-args"));
+    out.stat(&format!("{{\"stream\":\"template-args-budget\",\"dropped_over_parse_budget\":{}}}", dropped_slow));
+    // stream 3b'': the known template misreading in argument lists, deliberately (not left to the seed): two or more
+    // entries of a call argument list / a comma expression in a subscript, an earlier one with a bare `<`, a later one with
+    // a bare `>` in front of `(` — `f(a < b, c > (d & e))` reads back as `f<b, c>(d & e)`-like with another argument count
+    // (known finding, class key `tree-differs[list-length] …`); and the neighbours that must read back: the `>` operand
+    // not parenthesised, the `<` entry parenthesised, `<=` / `<<` instead of `<`, `>=` / `>>` instead of `>`
+    let mut st = Stats::default();
+    {
+        let a = || parse_sexp("(id a)").unwrap();
+        let b = || parse_sexp("(id b)").unwrap();
+        let lts = ["LessThan", "LessEqual", "LeftShift"];
+        let gts = ["GreaterThan", "GreaterEqual", "RightShift"];
+        let rights = [
+            "(bin BitwiseAnd (id c) (id d))",
+            "(cast (ty S) (id d))",
+            "(tern (id c) (id d) (id e))",
+            "(id d)",
+            "(call (id d) () ())",
+            "(un PostfixIncrement (un PrefixIncrement (id d)))",
+        ];
+        for lt in lts {
+            for gt in gts {
+                for r in rights {
+                    let l = bin(lt, a(), b());
+                    let g2 = bin(gt, parse_sexp("(id c)").unwrap(), parse_sexp(r).unwrap());
+                    let lists: Vec<Vec<SExp>> = vec![
+                        vec![l.clone(), g2.clone()],
+                        vec![l.clone(), parse_sexp("(lit i 3)").unwrap(), g2.clone()],
+                        vec![bin("Add", a(), l.clone()), g2.clone()],
+                        vec![un("LogicalNot", l.clone()), g2.clone()],
+                        vec![g2.clone(), l.clone()],
+                    ];
+                    for args in lists {
+                        let t = SExp::list("call", vec![parse_sexp("(id f)").unwrap(), SExp::List(vec![]), SExp::List(args.clone())]);
+                        run_request(&format!("C09.rt\tret\t{}", t.show()), out, &mut st);
+                        // the same entries as a comma expression in a subscript and in a statement
+                        let mut seq = args[0].clone();
+                        for x in &args[1..] {
+                            seq = bin("Sequence", seq, x.clone());
+                        }
+                        let t = SExp::list("sub", vec![parse_sexp("(id v)").unwrap(), seq.clone()]);
+                        run_request(&format!("C09.rt\tret\t{}", t.show()), out, &mut st);
+                        run_request(&format!("C09.rt\tstmt\t{}", seq.show()), out, &mut st);
+                    }
+                }
+            }
+        }
+    }
+    out.stat(&st.json("lt-gt-lists"));
     // stream 3c: literals of every kind over the whole value range ("every literal reads back with the same value and type")
     let mut st = Stats::default();
     for i in 0..(if thorough { 60000 } else { 6000 }) {
@@ -2570,6 +3040,7 @@ pub fn run(args: &Args, out: &mut Out) {
     let mut sg = SrcGen {
         rng: g.rng.fork(),
         kinds: Hist::default(),
+        rich_targs: true,
     };
     let mut st = Stats::default();
     for _ in 0..(if thorough { 20000 } else { 1500 }) {
@@ -2582,6 +3053,7 @@ pub fn run(args: &Args, out: &mut Out) {
     let mut sg2 = SrcGen {
         rng: g.rng.fork(),
         kinds: Hist::default(),
+        rich_targs: true,
     };
     let mut st5 = Stats::default();
     let want = if thorough { 40000 } else { 3000 };
